@@ -27,8 +27,16 @@ class ModelCloud:
         self.token_list = []                  # list served by getToken: dicts udpId/token/key (strings)
         self.token_for = token_for            # optional fn(udpid) -> list
         self.verify = True
+        self.single_session = False           # a new login supersedes the account's earlier sessions (as the vendor cloud does)
+        self.delay = 0.0                      # seconds every answer takes
 
     def client(self):
+        if self.delay:
+            async def slow(request):
+                import asyncio
+                await asyncio.sleep(self.delay)
+                return self.handle(request)
+            return httpx.AsyncClient(transport=httpx.MockTransport(slow))
         return httpx.AsyncClient(transport=httpx.MockTransport(self.handle))
 
     def _fresh(self, n=16):
@@ -80,6 +88,8 @@ class ModelCloud:
             return httpx.Response(200, request=request, text=json.dumps({"errorCode": "0", "msg": "ok", "result": {"loginId": self.login_id}}))
         if kind == "login":
             sid = self._fresh(32)
+            if self.single_session:
+                self.sessions = {x for x in self.sessions if self.session_account.get(x) != self.account}
             self.sessions.add(sid)
             self.session_account[sid] = self.account
             ev["sid"] = B(sid.encode())
